@@ -1,10 +1,10 @@
 CONSTANTS
-  Workers <- Workers_timed_d
-  NTs <- NTs_timed_d
-  ThreadNames <- Threads_timed_d
+  Workers <- MCWorkers
+  NTs <- MCNTs
+  ThreadNames <- MCThreads
   WyFix = FALSE
   AllowSpurious = FALSE
-INIT Init_timed_d
+INIT MCInit
 NEXT Next
 CHECK_DEADLOCK TRUE
 INVARIANTS TypeOK NoBad FuncOnce ReadyImpliesRan GetsAgree DeallocOnce RefsSane ThenAfterReady TsWaitImpliesReady CountersSane AtEnd WhenAllReady WhenAnyReady CombFOnce
